@@ -36,9 +36,11 @@ Definition model_visit {A} (o : oracles) (proj : desc -> A) (st : tstate) (s : s
                 end
   end.
 
-Definition res_eqb (r : goc_result) (o : option (nat * kvmap)) : bool :=
+(* the observation of an answered call: the partition id (renamed), the returned tags, and whether
+   GetJournalTags(id) finds the partition with the same tags (smap agrees with tmap) *)
+Definition res_eqb (r : goc_result) (o : option (nat * kvmap * bool)) : bool :=
   match r, o with
-  | GSrc s m, Some (s', m') => Nat.eqb s s' && kvmap_eqb m m'
+  | GSrc s m, Some (s', m', bysrc) => Nat.eqb s s' && kvmap_eqb m m' && bysrc
   | GErr, None => true
   | _, _ => false
   end.
@@ -51,16 +53,19 @@ Fixpoint all2b {A B : Type} (f : A -> B -> bool) (a : list A) (b : list B) : boo
   end.
 
 Inductive case :=
-(* one tindex service: GetOrCreateJournal(text) for every text (partition ids renamed to their order of first
-   appearance, None = error), then Visit(source) for every source (ids of the visited partitions, increasing) *)
-| KHist (o : oracles) (texts : list bytes) (obs : list (option (nat * kvmap))) (visits : list (source * vres nat))
+(* one tindex service: GetOrCreateJournal(text) for every text, the flag says that the index file could not be
+   written during that call (partition ids renamed to their order of first appearance, None = error), then
+   Visit(source) for every source (ids of the visited partitions, increasing) *)
+| KHist (o : oracles) (texts : list (bytes * bool)) (obs : list (option (nat * kvmap * bool))) (visits : list (source * vres nat))
 (* lql.BuildTagsExpFuncBySource(source) applied to tag sets: None = build error, per set Some b / None = panic *)
 | KEval (o : oracles) (s : source) (sets : list kvmap) (obs : option (list (option bool)))
 (* in-process server: one write per text (ok?), then SHOW PARTITIONS / SELECT FROM source: the tag lines seen, sorted *)
-| KE2E (o : oracles) (texts : list bytes) (wrote : list bool) (visits : list (source * vres bytes))
+| KE2E (o : oracles) (texts : list (bytes * bool)) (wrote : list bool) (visits : list (source * vres bytes))
 (* k goroutines race GetOrCreateJournal on spellings of one new tag set: number of distinct ids returned,
    number of partitions afterwards *)
-| KRace (o : oracles) (texts : list bytes) (distinct : nat) (parts : nat).
+| KRace (o : oracles) (texts : list bytes) (distinct : nat) (parts : nat)
+(* a call into the implementation panicked (fn = which call, on which input): the modelled functions never panic *)
+| KPanicked (fn : bytes) (input : bytes).
 
 Fixpoint insert_bytes (x : bytes) (l : list bytes) : list bytes :=
   match l with [] => [x] | y :: tl => if bytes_leb x y then x :: l else y :: insert_bytes x tl end.
@@ -77,7 +82,7 @@ Definition src_of (r : goc_result) : list nat := match r with GSrc s _ => [s] | 
 Definition check (c : case) : bool :=
   match c with
   | KHist o texts obs visits =>
-      let '(st, rs) := run (tbl_quote (o_q o)) (tbl_unquote (o_unq o)) t_empty texts in
+      let '(st, rs) := run_f (tbl_quote (o_q o)) (tbl_unquote (o_unq o)) t_empty texts in
       all2b res_eqb rs obs &&
       forallb (fun v => vres_eqb Nat.eqb (model_visit o d_src st (fst v)) (snd v)) visits
   | KEval o s sets obs =>
@@ -88,7 +93,7 @@ Definition check (c : case) : bool :=
       | _, _ => false
       end
   | KE2E o texts wrote visits =>
-      let '(st, rs) := run (tbl_quote (o_q o)) (tbl_unquote (o_unq o)) t_empty texts in
+      let '(st, rs) := run_f (tbl_quote (o_q o)) (tbl_unquote (o_unq o)) t_empty texts in
       list_eqb Bool.eqb (map is_src rs) wrote &&
       forallb (fun v =>
         vres_eqb bytes_eqb
@@ -98,6 +103,7 @@ Definition check (c : case) : bool :=
       (* every order of the atomic steps gives the same ids; take the text order *)
       let '(st, rs) := run (tbl_quote (o_q o)) (tbl_unquote (o_unq o)) t_empty texts in
       Nat.eqb (length (nodup Nat.eq_dec (flat_map src_of rs))) distinct && Nat.eqb (length (t_map st)) parts
+  | KPanicked _ _ => false
   end.
 
 Definition mismatches (l : list case) : list nat := mismatches_of check l.
